@@ -69,6 +69,10 @@ func RegisterSentinels(in *Interp) {
 		if a[0].K == val.GoErr {
 			return val.V{}, GoErr(a[0].S)
 		}
+		if a[0].K == val.Nil {
+			// Go turns panic(nil) into a *runtime.PanicNilError: a Go error, not the value nil
+			return val.V{}, GoErr("builtin")
+		}
 		return val.V{}, &Thrown{V: a[0]}
 	})
 }
